@@ -408,7 +408,7 @@ def edge_grid_without_edge_nodes(draw):
     spec["vars"] = [v for v in spec["vars"] if v["kind"] != "edge"] + [
         {"name": "on_edges", "kind": "edge", "dims": ["@0"] + list(spec["extra"])[:1],
          "dtype": "f8", "fill": None}]
-    case["spec"] = spec
+    case["spec"] = S.without_clashing_extra(spec)
     return case
 
 
@@ -422,7 +422,7 @@ def one_based_meshes_from_file(draw):
     enc.update({"start_index": 1, "fill": "int", "fill_value": 0, "pad_columns": draw(st.sampled_from([0, 1, 1]))})
     spec = draw(S.dataset_spec(convs=["ugrid"], max_vars=3, min_vars=1, max_extra=1,
                                modes=("decoded", "file", "netcdf"), geom_kwargs={"enc": enc}))
-    case["spec"] = spec
+    case["spec"] = S.without_clashing_extra(spec)
     return case
 
 
